@@ -127,6 +127,54 @@ Alts(ty, F, host) ==
       [] ty.t = "empty" -> {<< >>}
       [] ty.t \in {"opt", "some"} -> Alts(ty.i, F, host)
 
+\* every member present with its default value
+FullOfDefaults(s, F, host) ==
+    [nm \in AllNames(s) |->
+        LET m == MemberByName(s, F, nm) IN
+        IF m.feat # "" /\ m.feat \notin F THEN LNone
+        ELSE IF ~(m.ser \/ host) THEN LNone
+        ELSE WrapFor(m, DefaultOf(InnerTy(m.ty), F, host))]
+
+\* the two ends of a type's range (used for PAIRS of members)
+RECURSIVE Extremes(_, _, _)
+Extremes(ty, F, host) ==
+    CASE ty.t = "u8" -> {0, 255}
+      [] ty.t = "u32" -> {BN(0), BNMaxU32}
+      [] ty.t = "u64" -> {BN(0), BNMaxU64}
+      [] ty.t = "i32" -> {-2147483647 - 1, 2147483647}
+      [] ty.t = "bool" -> BOOLEAN
+      [] ty.t = "unit" -> {<< >>}
+      [] ty.t = "bytes" -> {<< >>, Pattern(50, IF ty.max < 0 THEN 300 ELSE ty.max)}
+      [] ty.t = "bytesExact" -> {Rep(0, ty.n), Rep(255, ty.n)}
+      [] ty.t = "str" -> {<< >>, AsciiPattern(51, IF ty.max < 0 THEN 300 ELSE ty.max)}
+      [] ty.t = "strTrunc" -> {<< >>, AsciiPattern(51, IF host THEN 65 ELSE ty.L)}
+      [] ty.t = "strSkip" -> {AsciiPattern(51, ty.L), AsciiPattern(51, IF host THEN ty.L + 1 ELSE 0)}
+      [] ty.t = "iconInner" -> {<< >>, AsciiPattern(51, 300)}
+      [] ty.t = "enumU8" -> {CHOOSE x \in ty.set : \A y \in ty.set : x <= y, CHOOSE x \in ty.set : \A y \in ty.set : x >= y}
+      [] ty.t = "enumStr" -> {CHOOSE x \in ty.tab : TRUE}
+      [] ty.t = "seq" -> {<< >>, [i \in 1..(IF ty.max < 0 THEN 3 ELSE ty.max) |-> DefaultOf(ty.e, F, host)]}
+      [] ty.t = "params" -> IF host THEN {<< >>, <<[alg |-> -257, type |-> N_publicKey], [alg |-> ALG_EdDSA, type |-> N_publicKey], [alg |-> ALG_ES256, type |-> N_publicKey]>>}
+                            ELSE {<< >>, <<ALG_EdDSA, ALG_ES256>>}
+      [] ty.t = "formats" -> {<< >>, <<N_tpm, N_none, N_packed>>}
+      [] ty.t \in {"struct", "indexed"} -> {MinOf(ty.s, F, host), FullOfDefaults(ty.s, F, host)}
+      [] ty.t = "cose" -> {DefaultOf(ty, F, host)}
+      [] ty.t = "attStmt" -> {[packed |-> FALSE, alg |-> 0, sig |-> << >>, x5c |-> << >>],
+                              [packed |-> TRUE, alg |-> ALG_ES256, sig |-> Pattern(48, 77), x5c |-> << <<Pattern(49, 1024)>> >>]}
+      [] ty.t = "empty" -> {<< >>}
+      [] ty.t \in {"opt", "some"} -> Extremes(ty.i, F, host)
+
+\* the minimal value with every PAIR of members set to every combination of their extremes
+TwoAtATime(s, F, host) ==
+    LET min == MinOf(s, F, host)
+        ms  == SelectSeq(Members(s, F), LAMBDA m : m.ser \/ host)
+    IN  UNION {UNION {{[min EXCEPT ![ms[i].name] = WrapFor(ms[i], a), ![ms[j].name] = WrapFor(ms[j], b)] :
+                          a \in Extremes(InnerTy(ms[i].ty), F, host), b \in Extremes(InnerTy(ms[j].ty), F, host)}
+                      : j \in (i + 1)..Len(ms)} : i \in 1..Len(ms)}
+       \cup {FullOfDefaults(s, F, host)}
+
+\* a list of n default entries with one different entry at position k
+ListWithOddOneAt(ety, n, k, odd, F, host) == [i \in 1..n |-> IF i = k THEN odd ELSE DefaultOf(ety, F, host)]
+
 \* the minimal value of a schema, and that value with ONE member (present in F, and emitted in
 \* the direction asked for) replaced by each alternative of its type
 OneAtATime(s, F, host) ==
